@@ -22,7 +22,7 @@ func (r *Rng) Intn(n int) int {
 	}
 	return r.IntN(n)
 }
-func (r *Rng) Range(lo, hi int) int { return lo + r.Intn(hi-lo+1) } // inclusive
+func (r *Rng) Range(lo, hi int) int  { return lo + r.Intn(hi-lo+1) } // inclusive
 func (r *Rng) Chance(p float64) bool { return r.Float64() < p }
 func (r *Rng) Pick(w []int) int { // weighted index
 	t := 0
@@ -52,13 +52,13 @@ func RunSeed(master uint64, prop string, i int) uint64 {
 
 // Config is the per-run configuration (swarm knobs).
 type Config struct {
-	PageSize    int `json:"page_size"`
-	AutoVacuum  int `json:"auto_vacuum"`   // 0 none, 1 full, 2 incremental
-	AppAutoCkpt int `json:"app_autockpt"`  // application's wal_autocheckpoint
+	PageSize      int `json:"page_size"`
+	AutoVacuum    int `json:"auto_vacuum"`               // 0 none, 1 full, 2 incremental
+	AppAutoCkpt   int `json:"app_autockpt"`              // application's wal_autocheckpoint
 	AppCachePages int `json:"app_cache_pages,omitempty"` // application page cache (small: transactions spill uncommitted frames into the WAL)
-	Tables      int `json:"tables"`        // initial tables
-	InitRows    int `json:"init_rows"`     // rows inserted before litestream starts
-	InitRowSize int `json:"init_row_size"` //
+	Tables        int `json:"tables"`                    // initial tables
+	InitRows      int `json:"init_rows"`                 // rows inserted before litestream starts
+	InitRowSize   int `json:"init_row_size"`             //
 
 	MinCheckpointPageN int   `json:"min_ckpt"`
 	TruncatePageN      int   `json:"truncate_n"`
@@ -70,12 +70,15 @@ type Config struct {
 	SnapshotIntervalMs  int64   `json:"snapshot_interval_ms"`
 	SnapshotRetentionMs int64   `json:"snapshot_retention_ms"`
 	L0RetentionMs       int64   `json:"l0_retention_ms"`
-	RetentionEnabled    bool    `json:"retention_enabled"`
-	VerifyCompaction    bool    `json:"verify_compaction,omitempty"`
+	// InitRollbackJournal: the database is created and left in rollback-journal
+	// mode; litestream finds it that way at its first sync (and switches it to WAL)
+	InitRollbackJournal bool `json:"init_rollback_journal,omitempty"`
+	RetentionEnabled    bool `json:"retention_enabled"`
+	VerifyCompaction    bool `json:"verify_compaction,omitempty"`
 
-	Backend  string `json:"backend"`             // "file" | "mem"
-	StepGapMs int64 `json:"step_gap_ms"`         // fake-clock advance after every op
-	Extra    map[string]int64 `json:"extra,omitempty"` // property-specific knobs
+	Backend   string           `json:"backend"`         // "file" | "mem"
+	StepGapMs int64            `json:"step_gap_ms"`     // fake-clock advance after every op
+	Extra     map[string]int64 `json:"extra,omitempty"` // property-specific knobs
 }
 
 // Stmt is one SQL statement of an application transaction, fully explicit.
@@ -173,10 +176,10 @@ func (p *Program) Clone() *Program {
 
 // Violation is a property violation found by an oracle.
 type Violation struct {
-	Property string `json:"property"`
-	Class    string `json:"class"`  // oracle id; the shrink criterion
-	Msg      string `json:"msg"`    // human readable
-	OpIndex  int    `json:"op_index"`
+	Property string         `json:"property"`
+	Class    string         `json:"class"` // oracle id; the shrink criterion
+	Msg      string         `json:"msg"`   // human readable
+	OpIndex  int            `json:"op_index"`
 	Facts    map[string]any `json:"facts,omitempty"` // decisive run facts (used for known-finding signatures)
 }
 
